@@ -614,10 +614,8 @@ impl MetaData<'_> {
     /// Check for alignment and overlap
     fn valid(&self, m: &MetaSize) -> bool {
         fn overlap(a: Range<*const u8>, b: Range<*const u8>) -> bool {
-            a.contains(&b.start)
-                || a.contains(&unsafe { b.end.sub(1) })
-                || b.contains(&a.start)
-                || b.contains(&unsafe { a.end.sub(1) })
+            // Empty buffers (e.g. no locals) do not overlap with anything
+            !a.is_empty() && !b.is_empty() && a.start < b.end && b.start < a.end
         }
         self.local.len() >= m.local
             && self.trees.len() >= m.trees
